@@ -5,4 +5,5 @@ let table = [
   ("framing", Model.entry_framing);
   ("queryloop", Model.entry_queryloop);
   ("stages", Model.entry_stages);
+  ("vss", Model.entry_vss);
 ]
